@@ -106,6 +106,17 @@ MISSED_AT_FIRST = {
     'C16-9': 'missed: flow steps were never listed among the processes; two order-sensitive flow steps (the dependent one declared first) are now generated there',
     'C17-9': 'missed: no leaf held None; None leaves added (get_in with a non-None default must return the stored None)',
     'C19-9': 'missed: event values were scalars and strings; family field (one array object listed in several events while another process accumulates on the variable, compared with a run that lists a copy per event)',
+    'C03-10': 'missed by C03 (caught by C18, which already used embed_path): C03 now repeats one case in 40 with the repository\'s RAM emitter and an embed_path and compares the emit times it keeps',
+    'C04-10': 'caught by C01 (cached update dictionaries) at first, not by C04: the permutation class now has a process with overlapping ports that returns the same nested update dictionaries at every call',
+    'C06-10': 'caught by C08 (shared default objects) at first, not by C06: family merge_neighbours (dictionary variables with the merge updater that still hold one shared default object)',
+    'C08-10': 'missed: at most two updates met at one dictionary-valued variable; a third port added (the key fewer updates share comes first)',
+    'C09-10': 'missed: nothing looked at the update object of a director after it was applied; the directors now compare what they returned last time with a snapshot (oracle update_object_intact, reported by C10 and harvested by C09)',
+    'C12-10': 'missed: process nodes were left out of the rows; family procnode (a branch-level flag over a compartment with a process that changes its parameters at every invocation)',
+    'C14-10': 'missed: no plain string started with the form of a serialized quantity and went on',
+    'C15-10': 'missed: conflicting _value declarations were scalars; dictionary values where one is a strict superset of the other added (both listing orders)',
+    'C16-10': 'missed: every override named one process; an override naming three processes, the one inside a nested compartment first',
+    'C18-10': 'caught by C14 at first, not by C18: no emitted sequence mixed plain numbers and quantities',
+    'C19-10': 'caught by C08 at first, not by C19: every driven variable was declared with the set updater; some now declare accumulate / nonnegative_accumulate',
     'C19-4': 'missed: one update() whose length is a multiple of the timestep; a third of the cases now make 2-4 update() calls that cut ticks short',
 }
 
